@@ -32,4 +32,16 @@ Definition qwarp_nonrigid_out2 (pad : padmode) (ac : bool) (ux uy : list (list Q
   | _ => q 0 1
   end.
 
+(* ImageTransformer with SequentialTransform(linear M, displacement field u): the field is INTERPOLATED at M x2 (only the
+   first member is told that the points are the undeformed lattice) *)
+Definition qwarp_seq_out2 (pad : padmode) (f : form) (ac : bool) (M : list (list Qc)) (ux uy : list (list Qc))
+    (tg g src : gridf (K:=QcF)) (img : list (list Qc)) (j : list Qc) : Qc :=
+  let x2 := gen_pts2 (K:=QcF) 2 (cubeax ac) (cubeax ac) (gN 2 tg) (gS 2 tg) (gC 2 tg) (gD 2 tg) (gN 2 g) (gS 2 g) (gC 2 g) (gD 2 g)
+              (target_coord (K:=QcF) 2 ac tg j) in
+  match gen_pts2 (K:=QcF) 2 (cubeax ac) (cubeax ac) (gN 2 g) (gS 2 g) (gC 2 g) (gD 2 g) (gN 2 src) (gS 2 src) (gC 2 src) (gD 2 src)
+          (qwarp_points2 ac ux uy (view_forward (K:=QcF) 2 f M x2)) with
+  | [x; y] => qgrid_sample2 pad ac img x y
+  | _ => q 0 1
+  end.
+
 Definition ball (l : list bool) : bool := forallb (fun b => b) l.
